@@ -113,3 +113,13 @@ func (c *Conn) SetWriteDeadline(t time.Time) error { return nil }
 // ClosedBySelf reports whether Close was called on this very end. IsClosed cannot tell who closed:
 // either end's Close closes both halves (like a TCP close seen by both sides).
 func (c *Conn) ClosedBySelf() bool { return c.self.Load() }
+
+// CloseWrite closes only the direction this end writes into: the peer reads what is buffered and
+// then EOF, while it can still write (a half-close, like shutdown(SHUT_WR)).
+func (c *Conn) CloseWrite() {
+	h := c.wr
+	h.mu.Lock()
+	h.closed = true
+	h.cond.Broadcast()
+	h.mu.Unlock()
+}
